@@ -90,7 +90,9 @@ def describe(tier, seed):
                     'position of the state vector, 1-2 distinct delays, additive and multiplicative (instantaneous factor) '
                     'delayed terms; sparse on/off: J(t, y, ...) at 3 points vs central differences (h = 1e-6) of the function '
                     'from get_run_func of an identically built model in the same state ordering; history matrices vs '
-                    'differences w.r.t. the state delayed by each distinct delay; non-trivial = all',
+                    'differences w.r.t. the state delayed by each distinct delay; every delayed case additionally with '
+                    'sparse=True: csr containers equal to the dense J0 / history matrices, in the same order; '
+                    'non-trivial = all',
             'bounds': {'state_vars': 4}}
 
 
@@ -131,6 +133,11 @@ def run_case(case):
         if solver == 'scipy':
             kw['solver'] = 'scipy'
         J, ja, jn, js = mk().get_jacobian_func('jf', **kw)
+        Js = jas = None
+        if C.has_hist and not case['sparse'] and case['backend'] == 'default':
+            # "sparse=True changes only the container": same matrices, in the same order, as the dense function
+            pool.fresh_state()
+            Js, jas, _, _ = mk().get_jacobian_func('jfs', **dict(kw, sparse=True))
     except Exception as e:
         sig['exc'] = type(e).__name__
         return viol('raises', detail=f'{type(e).__name__}: {e}'[:300])
@@ -206,6 +213,23 @@ def run_case(case):
                 if not hit:
                     return viol('history_jacobian_differs', point=pt, got=[G.tolist() for G in got], expected=M.round(8).tolist())
                 used.add(hit[0])
+            if Js is not None:
+                sargs = list(jas)
+                sargs[0], sargs[1], sargs[2] = t, y.copy(), base_hist
+                try:
+                    S0, Sh = Js(*sargs)
+                except Exception as e:
+                    sig['exc'] = type(e).__name__
+                    return viol('sparse_jacobian_call_raises', detail=f'{type(e).__name__}: {e}'[:300])
+                res['evals'] += 1
+                if not all(hasattr(M, 'todense') for M in [S0] + list(Sh)):
+                    return viol('sparse_container', type=str([type(M).__name__ for M in [S0] + list(Sh)]))
+                if len(Sh) != len(got):
+                    return viol('sparse_history_matrix_count', got=len(Sh), expected=len(got))
+                for i, (A, B) in enumerate(zip([S0] + list(Sh), [J0] + got)):
+                    A = dense(A)
+                    if A.shape != B.shape or not np.array_equal(A, B):
+                        return viol('sparse_changes_more_than_container', point=pt, matrix=i, sparse=A.tolist(), dense=B.tolist())
     res['outcome'] = hashlib.sha256(np.round(J0, 6).tobytes()).hexdigest()[:10]
     res['ok'] = True
     return res
